@@ -200,6 +200,11 @@ func MX() []*descriptorpb.FileDescriptorProto {
 	wkt.Rep("durs", 8, M(durT))
 	wkt.Map("color_by_flag", 9, Bool, E(color))
 
+	anys := f.Msg("Anys") // several Any values in one message, early in the draw order
+	anys.Rep("items", 1, M(anyT))
+	anys.Map("by_id", 2, Int32, M(anyT))
+	anys.Field("one", 3, M(anyT))
+
 	ops := f.Msg("Ops")
 	ops.Field("i", 1, S(Int32))
 	ops.Field("s", 2, S(String))
